@@ -65,7 +65,7 @@ def check(ctx):
     ctx.rule("R16.1", "each of the five operators has a forward dunder (self, other, operator.X) and a reflected dunder "
                       "(other, self, operator.X); the table VALID_OPERATORS has exactly these", 11)
     ctx.rule("R16.2", "CompositeParameter.__call__ == operator(left value, right value); t is passed to exactly the time-dependent operands", 8)
-    ctx.rule("R16.3", "time_dependent == (left is a time-dependent parameter) or (right is)", 6)
+    ctx.rule("R16.3", "time_dependent == (left is a time-dependent parameter) or (right is); the composite keeps the operands and operator it was given", 12)
     ctx.rule("R16.4", "every attribute access on an operand is dominated by isinstance(<that operand>, <class defining it>); "
                       "left and right are treated alike", 4)
     ctx.rule("R16.5", "every attribute read on an operand exists on every class the dominating guard admits (slots definitely assigned)", 4)
@@ -119,10 +119,10 @@ def check(ctx):
     # R16.2 / R16.3 by abstract interpretation -------------------------------------------------
     f_init = C.methods["__init__"]
     f_call = C.methods["__call__"]
-    kinds = ["static", "timedep", "number"]
+    kinds = ["static", "timedep", "number", "composite"]
     for lk in kinds:
         for rk in kinds:
-            if lk == rk == "number":
+            if lk == rk == "number" or lk == rk == "composite":
                 continue
             T = AtomTable()
             ip = Interp(repo, T)
@@ -136,16 +136,35 @@ def check(ctx):
                 return I.T.real(nm)
             ip.func_overrides[f"{PARAM}:Parameter.__call__"] = pcall
 
+            OP = ModRef("operator.sub")
+
             def mk(kind, label):
                 if kind == "number":
                     return T.real(label + "_num")  # a plain number
+                if kind == "composite":
+                    # an operand that is itself `<parameter> - <number>` (same operator as the one being built), number on the
+                    # side that makes a chain with a numeric sibling
+                    inner_p = Obj(P, {"time_dependent": False, "_use_cache": None, "_cache": {}}, label=label + label)
+                    inner_n = T.real(label + label + "_num")
+                    a_, b_ = (inner_p, inner_n) if label == "L" else (inner_n, inner_p)
+                    return Obj(C, {"left": a_, "right": b_, "operator": OP, "time_dependent": False, "_use_cache": None,
+                                   "_cache": {}}, label=label)
                 return Obj(P, {"time_dependent": kind == "timedep", "_use_cache": None, "_cache": {}}, label=label)
             left, right = mk(lk, "L"), mk(rk, "R")
             ip.ext_overrides["builtins.isinstance"] = lambda I, a, k: _isinst(I, repo, a)
             comp = Obj(C, {}, label="comp")
             needs_outcomes = {}
             try:
-                ip.call_function(f_init, [comp, left, right, ModRef("operator.sub")], {})
+                ip.call_function(f_init, [comp, left, right, OP], {})
+                kept = comp.attrs.get("left") is left and comp.attrs.get("right") is right and \
+                    isinstance(comp.attrs.get("operator"), ModRef) and comp.attrs["operator"].dotted == "operator.sub"
+                ctx.ob("R16.3", f"the composite keeps the operands and the operator it was given ({lk}, {rk})", kept,
+                       detail={"left": str(comp.attrs.get("left")), "right": str(comp.attrs.get("right")), "operator": str(comp.attrs.get("operator"))},
+                       where=f_init.fq, construct=f"stored operands ({lk},{rk})", loc=loc(f_init, f_init.node),
+                       message=f"CompositeParameter.__init__ given ({lk}, {rk}, operator.sub) stores left={comp.attrs.get('left')}, right={comp.attrs.get('right')}, "
+                               f"operator={comp.attrs.get('operator')}: not the objects it was given",
+                       consequence="the expression tree is rewritten at construction: equality is no longer structural ((p - 1) - 2 compares equal to p - 3), and a "
+                                   "rewrite that is only valid on part of the domain ((p ** a) ** b -> p ** (a * b)) changes the value")
                 td = comp.attrs.get("time_dependent")
                 want_td = (lk == "timedep") or (rk == "timedep")
                 ctx.ob("R16.3", f"time_dependent for ({lk}, {rk})", td is want_td, detail={"got": td, "want": want_td},
@@ -178,6 +197,9 @@ def check(ctx):
                     def ev(kind, label):
                         if kind == "number":
                             return T.real(label + "_num")
+                        if kind == "composite":
+                            pv, nv = T.real(f"{label}{label}(x,y,z)"), T.real(label + label + "_num")
+                            return (pv - nv) if label == "L" else (nv - pv)
                         return T.real(f"{label}(x,y,z{',t' if (kind == 'timedep' and tval is not None) else ''})")
                     want = ev(lk, "L") - ev(rk, "R")
                     ctx.ob("R16.2", f"(L - R)(x,y,z,t={'t' if tval is not None else 'None'}) for ({lk}, {rk})" +
